@@ -14,8 +14,9 @@ RULE = (
     "both strands x {ncRNA,tRNA,rRNA,misc_RNA, coding with a menu (quick) / every (thorough) contiguous CDS placement of "
     ">=3 bases x start frame 0..2 having >=1 complete codon}; part 'multi': every ordered choice of 2 and of 3 genes from a "
     "menu of 8 structures in disjoint / same-start / overlapping arrangements with locus tags out of positional order, "
-    "plus single genes with a reduced identifier set, on a genome with ambiguity letters, and next to feature "
-    "collections. Every record x {prokaryotic,eukaryotic} x update_translations x {SORTED,LOCUS_TAG,HYBRID}. "
+    "plus single genes with a reduced identifier set, on a genome with ambiguity letters, next to feature "
+    "collections, and genes WITHOUT a locus tag (symbol+id / symbol only / gene id only / no identifier) alone and mixed "
+    "with tagged genes (disjoint and overlapping). Every record x {prokaryotic,eukaryotic} x update_translations x {SORTED,LOCUS_TAG,HYBRID}. "
     "Non-trivial = >=2 exons or minus strand or non-zero start frame or >=2 genes."
 )
 ASSUMPTIONS = [
@@ -36,8 +37,14 @@ ASSUMPTIONS = [
     "GenBank carries one symbol (/gene) per gene; transcript symbol == gene symbol in the world; for a gene without a "
     "symbol the writer documents that it substitutes the gene id, so the re-parsed symbol may be None or the id",
     "premise 'position-sorted with unique locus tags' of the mode-agreement clause is decided on the independent reader's "
-    "rows: gene-type rows in non-decreasing start order, rows sharing a start belong to one locus tag, gene locus tags "
-    "unique. SORTED mode is compared with the source and with the other modes only under this premise.",
+    "rows: gene-type rows in non-decreasing start order, rows sharing a start lie in one gene block (gene row + rows up "
+    "to the next gene row); every gene row carries a locus tag and no two gene rows share one. Under the premise all "
+    "three modes must agree with each other and with the source.",
+    "outside the premise a mode is compared with the source only where its documented strategy applies: SORTED on "
+    "position-sorted files, LOCUS_TAG on files whose gene rows are uniquely tagged, HYBRID on either",
+    "a gene without a locus tag of its own is written with the documented fallback (symbol, else gene id) as /locus_tag "
+    "on the gene row AND on its child rows; a gene with none of the three identifiers carries no tag on any row; the "
+    "re-parsed locus tag is that written tag",
     "leg 2 judges genes only; re-parsed feature collections take part in the mode-agreement comparison",
 ]
 
@@ -95,13 +102,15 @@ def check_leg1(res, case, rec, flavour, upd, text):
         for i, r in enumerate(rows):
             if i in used or _key(r) != _key(e):
                 continue
-            if r["q"].get("locus_tag") == [e["q"]["locus_tag"]]:
+            if r["q"].get("locus_tag") == ([e["lt"]] if e["lt"] is not None else None):
                 hit = i
                 break
         if hit is None:
+            # gene row and all of its child rows must carry ONE locus tag: the source tag or its documented fallback
             res.deviation("collection_to_genbank", case, [r["q"].get("locus_tag") for r in rows if _key(r) == _key(e)],
-                          e["q"]["locus_tag"], sig="qualifier-locus_tag", row_type=e["type"])
+                          e["lt"], sig="qualifier-locus_tag", row_type=e["type"])
             continue
+        res.note("locus_tag", "none" if e["lt"] is None else "carried")
         used.add(hit)
         r = rows[hit]
         for k, v in sorted(e["q"].items()):
@@ -153,14 +162,17 @@ def compare_models(res, case, mode, parsed, rec, flavour):
         dev("sequence", parsed["sequence"], genome)
     got = {}
     for g in parsed["genes"]:
-        got.setdefault(g["locus_tag"], []).append(g)
-    if sorted(k or "" for k in got) != sorted(e["locus_tag"] for e in exp) or any(len(v) != 1 for v in got.values()):
-        dev("genes", sorted((k or "", len(v)) for k, v in got.items()), sorted(e["locus_tag"] for e in exp))
+        k = g["locus_tag"] or "tx:" + "|".join(sorted(str(t["transcript_id"]) for t in g["transcripts"]))
+        got.setdefault(k, []).append(g)
+    if sorted(got) != sorted(e["key"] for e in exp) or any(len(v) != 1 for v in got.values()):
+        dev("genes", sorted((k, len(v)) for k, v in got.items()), sorted(e["key"] for e in exp))
         return
     for e in exp:
-        g = got[e["locus_tag"]][0]
+        g = got[e["key"]][0]
+        if g["locus_tag"] != e["locus_tag"]:
+            dev("locus_tag", g["locus_tag"], e["locus_tag"])
         if len(g["transcripts"]) != 1:
-            dev("transcript-count", len(g["transcripts"]), 1, locus_tag=e["locus_tag"])
+            dev("transcript-count", len(g["transcripts"]), 1, key=e["key"])
             continue
         t = g["transcripts"][0]
         if t["strand"] != e["strand"]:
@@ -213,13 +225,19 @@ def check_record(res, rec, flavour, upd):
     rows = check_leg1(res, case, rec, flavour, upd, text)
     if rows is None:
         return
-    premise = W.position_sorted(rows)
+    sorted_ok = W.rows_position_sorted(rows)
+    tags_ok = W.gene_tags_unique(rows)
+    premise = sorted_ok and tags_ok
+    # which strategy is documented to be able to group this file: SORTED needs position order; LOCUS_TAG needs every
+    # gene row tagged, uniquely; HYBRID uses the tag where there is one and position for the rest
+    can = {"SORTED": sorted_ok, "LOCUS_TAG": tags_ok, "HYBRID": sorted_ok or tags_ok}
+    res.note("file", f"sorted={sorted_ok}:unique-tags={tags_ok}")
     results = {}
     for mode in W.MODES:
         p = lib.outcome(IO.parse, text, mode)
         res.trans()
-        judged = mode != "SORTED" or premise
-        res.note("parse", f"{mode}:{'judged' if judged else 'unsorted-file-not-judged'}:{p[0]}")
+        judged = can[mode]
+        res.note("parse", f"{mode}:{'judged' if judged else 'premise-of-mode-fails-not-judged'}:{p[0]}")
         if p[0] != "ok":
             if judged:
                 res.deviation("parse_genbank:" + mode, case, p[1] + ": " + str(p[2])[:200], "gene models", sig="parse-raises", mode=mode)
@@ -242,7 +260,7 @@ def check_record(res, rec, flavour, upd):
         if "HYBRID" in results and "LOCUS_TAG" in results:
             res.trans()
             if results["HYBRID"] != results["LOCUS_TAG"]:
-                # all features carry unique locus tags, so HYBRID has nothing to hand to the sorted strategy
+                # both judged and file unsorted => every gene row is uniquely tagged: HYBRID has nothing for the sorted strategy
                 res.deviation("parse_genbank:modes", case, results["HYBRID"]["genes"], results["LOCUS_TAG"]["genes"], sig="modes-disagree-HYBRID")
 
 
@@ -277,18 +295,5 @@ def replay(case):
     return res.deviations
 
 
-# ---------------------------------------------------------------------------------------------------------
-def _m_no_codon_start(d):
-    """The writer never emits /codon_start: a CDS with a non-zero start frame is read back as if it began in frame
-    ZERO.  Accepts only: field 'frames', source start frame != 0, and the observed frames are exactly those of one
-    uninterrupted reading frame over the same CDS blocks that begins with frame 0."""
-    if d.get("sig") != "parse-frames" or not d.get("f0"):
-        return False
-    if not any(g.get("f0") == d["f0"] for g in d["case"]["rec"]["genes"]):
-        return False
-    return list(d["observed"] or []) == list(W.frames_for(d["cds"], d["strand"], 0)) and list(d["expected"]) == list(
-        W.frames_for(d["cds"], d["strand"], d["f0"])
-    )
-
-
-MATCHERS = {"c12_no_codon_start": _m_no_codon_start}
+# no known finding: the missing /codon_start (DESIGN appendix B19) was repaired in /repo, a recurrence is a VIOLATION
+MATCHERS = {}
